@@ -74,7 +74,17 @@ def windowPoints (mint maxt : Int) (ss : List (Sample V)) : List (Pt V) :=
 
 def VSel.allMatchers (s : VSel) : List Matcher := s.matchers ++ s.filters.getD []
 
-def VSel.refTime (s : VSel) (t : Int) : Int := (s.atTs.getD t) - s.origOffset
+/-- The selector's effective offset: `setOffsetForAtModifier` turns `@ ts` into an offset
+relative to the start of the query window. A selector under `@` that sits inside a
+step-invariant wrapper is evaluated at `start`, hence at `ts - origOffset`; one that is not
+wrapped (Prometheus' `PreprocessExpr` does not descend into aggregation parameters) moves
+with the evaluation time - in the reference engine as well. -/
+def VSel.offsetAt (s : VSel) (start : Int) : Int :=
+  s.origOffset + (match s.atTs with
+    | some a => start - a
+    | none => 0)
+
+def VSel.refTime (s : VSel) (start t : Int) : Int := t - s.offsetAt start
 
 def matchingSeries (c : Ctx V) (s : VSel) : List (Series V) :=
   c.st.filter (fun sr => matchAll c.re s.allMatchers sr.labels)
@@ -85,7 +95,7 @@ def selectT (c : Ctx V) (s : VSel) (ref : Int) : List (Labels × Int × V) :=
     (selectSample c.lookback ref sr.samples).map fun p => (sr.labels, p.1, p.2)
 
 def selectV (c : Ctx V) (s : VSel) (t : Int) : Vec V :=
-  (selectT c s (s.refTime t)).map fun x => (x.1, x.2.2)
+  (selectT c s (s.refTime c.start t)).map fun x => (x.1, x.2.2)
 
 /-! ### helpers -/
 
@@ -251,7 +261,7 @@ def rangeSeconds (range : Int) : V := div (ofInt range) (ofInt 1000)
 
 /-- a range function over a matrix selector at step `t` -/
 def evalRangeFn (c : Ctx V) (fn : String) (s : VSel) (range t : Int) : Vec V :=
-  let ref := s.refTime t
+  let ref := s.refTime c.start t
   (matchingSeries c s).filterMap fun sr =>
     (rangeKernel fn (windowPoints (ref - range) ref sr.samples) (ref - range) ref
         (rangeSeconds range)).map fun v =>
